@@ -235,6 +235,36 @@ theorem pats_correct : ∀ (ps : List CPat) (C : List Instr) (K : List Val) (pos
         refine (s1.to (by simp)).trans (s2.to ?_)
         cases b <;> simp [patsBytes, Nat.add_assoc]
 
+/-! ## code size is independent of the placement -/
+
+theorem bytes_compileArms : ∀ (arms : CArms), arms.All (fun e => ∀ pos k, bytes (compile pos k e) = sizeE e) →
+    ∀ pos k, bytes (compileArms pos k arms) = sizeArms arms := by
+  intro arms
+  induction arms using CArms.ind with
+  | last d =>
+    intro hall pos k
+    simp only [CArms.All] at hall
+    simp [compileArms, sizeArms, bytes_append, bytes, Instr.size, hall]; omega
+  | cons pats body rest ih =>
+    intro hall pos k
+    simp only [CArms.All] at hall
+    simp [compileArms, sizeArms, bytes_append, bytes, Instr.size, bytes_compilePats, hall.1, ih hall.2]; omega
+
+theorem bytes_compile (e : CExpr) : ∀ pos k, bytes (compile pos k e) = sizeE e := by
+  induction e with
+  | lit | tru | fls | null | gget => intro pos k; simp [compile, sizeE, bytes, Instr.size]
+  | un op a iha => intro pos k; cases op <;> simp [compile, sizeE, bytes_append, bytes, Instr.size, unInstr, iha]
+  | gset i a iha => intro pos k; simp [compile, sizeE, bytes_append, bytes, Instr.size, iha]
+  | bin op a b iha ihb => intro pos k; simp [compile, sizeE, bytes_append, bytes, Instr.size, iha, ihb]; omega
+  | lt a b iha ihb => intro pos k; simp [compile, sizeE, bytes_append, bytes, Instr.size, iha, ihb]; omega
+  | le a b iha ihb => intro pos k; simp [compile, sizeE, bytes_append, bytes, Instr.size, iha, ihb]; omega
+  | and a b iha ihb => intro pos k; simp [compile, sizeE, bytes_append, bytes, Instr.size, iha, ihb]; omega
+  | or a b iha ihb => intro pos k; simp [compile, sizeE, bytes_append, bytes, Instr.size, iha, ihb]; omega
+  | ite c t e ihc iht ihe => intro pos k; simp [compile, sizeE, bytes_append, bytes, Instr.size, ihc, iht, ihe]; omega
+  | matchE s arms ihs iharms =>
+    intro pos k
+    simp [compile, sizeE, bytes_append, ihs, bytes_compileArms arms iharms]
+
 /-! ## the theorem -/
 
 /-- the statement of `compile_correct` for one expression -/
